@@ -340,12 +340,20 @@ def assemble (factor : φ) : List φ → Option (List φ)
   | [] => none                       -- ncat = 1: `freq[ncat-2]` panics
   | f0 :: rest => some (f0 * factor :: categoriesOf factor f0 rest)
 
+/-- `List.map` through a partial function (`none` as soon as one value is missing) -/
+def mapOpt {α β : Type} (f : α → Option β) : List α → Option (List β)
+  | [] => some []
+  | a :: l =>
+    match f a, mapOpt f l with
+    | some b, some bs => some (b :: bs)
+    | _, _ => none
+
 /-- `DiscreteGamma(alpha, ncat)` given the external quantiles `q_i = Quantile((i+1)/ncat)` (`i < ncat-1`)
 and `lngamma = log(Gamma(alpha+1))`; `beta := alpha; factor := alpha/beta*ncat` -/
 def discreteGammaWith (ig : φ → Option φ) (alpha : φ) (ncat : Nat) (quantiles : List φ) : Option (List φ) :=
   let beta := alpha
   let factor := alpha / beta * RealLike.ofNat ncat
-  (quantiles.mapM fun q => ig (q * beta)).bind (assemble factor)
+  (mapOpt (fun q => ig (q * beta)) quantiles).bind (assemble factor)
 
 def discreteGamma (alpha : φ) (ncat : Nat) (quantiles : List φ) (lngamma : φ) (fuel : Nat) : Option (List φ) :=
   discreteGammaWith (fun x => incompleteGamma x (alpha + 1) lngamma fuel) alpha ncat quantiles
